@@ -131,3 +131,53 @@ def check_C18(c):
     c.assumptions += ["page identity = address of the page's first byte (hook alloc.get, under the allocator lock)",
                       "at quiescence the receiver already holds one page for the next packet (allowed)"]
     return c.finish()
+
+
+def export_scen(c, module, cfg, n, conv, name, depth=200):
+    r = vlib.tlc(module, cfg, c.wd, timeout=600, workers=1, simulate="num=%d" % n, depth=depth,
+                 extra=["-seed", str(c.seed), "-deadlock"])
+    if not r.ok:
+        raise Machinery("scenario export %s failed: %s %s\n%s" % (module, r.violated, r.error, r.raw[-2000:]))
+    scs = []
+    for line in r.raw.splitlines():
+        m = re.match(r'<<"SCEN", "(.*)">>$', line.strip())
+        if m:
+            scs.append(conv(json.loads(m.group(1).encode().decode("unicode_escape")), len(scs)))
+    if not scs:
+        raise Machinery("no scenarios exported from " + module)
+    path = os.path.join(c.wd, name)
+    json.dump(scs, open(path, "w"))
+    c.cov["harness"]["tlc_scenarios"] = c.cov["harness"].get("tlc_scenarios", 0) + len(scs)
+    c.cov["tlc_runs"].append({"module": module, "cfg": cfg, "mode": "simulate", "scenarios": len(scs), "generated": r.generated,
+                              "wall_s": round(r.wall, 1)})
+    c.cov["samples"].append({"kind": "scenario exported from " + module, "scenario": scs[c.seed % len(scs)]})
+    return path
+
+
+def count_traces(c, path, fields):
+    ev = vlib.read_ndjson(path)
+    traces = vlib.split_traces(ev)
+    c.cov["evaluations"] += len(traces)
+    c.cov["distinct_nontrivial"] += len({json.dumps([t[0].get(f) for f in fields], sort_keys=True) for t in traces if len(t) > 3})
+    return traces
+
+
+def check_C11(c):
+    c.model("Session", "Session.quick.cfg", note="exhaustive: <=6 requests, <=3 open handles")
+    for mech, inv in [("MonotonicHandles", "Inv_C11_Unique"), ("CloseDeletes", "Inv_C11_NeverTwice"), ("SweepOnExit", "Inv_C11_ClosedOnce"),
+                      ("TErrOnlyOpen", "Inv_C11_TErrExactlyOpen"), ("DropFailedOpen", "Inv_C11_StaleNotValid")]:
+        c.model("Session", "Session.abl_%s.cfg" % mech, must="fail", expect=inv, note="mechanism %s removed" % mech)
+    if c.tier == "thorough":
+        c.model("Session", "Session.thorough.cfg", note="exhaustive: <=9 requests, <=4 open handles")
+    ends = ["eof", "mid", "err"]
+    scen = export_scen(c, "SessionScen", "SessionScen.cfg", 80 if c.tier == "quick" else 2000,
+                       lambda s, i: {"ops": s, "end": ends[i % 3], "src": "tlc"}, "scen_session.json")
+    rc, out, path = c.run("TestVerif_Session", env={"VERIF_SCEN": scen}, timeout=3000)
+    count_traces(c, path, ["server", "end", "ops"])
+    c.cov["rule"] = ("a case is one (server configuration, operation sequence, way the connection ends) replayed sequentially on the real server; "
+                     "non-trivial = at least one request; distinct = distinct tuples; sequences come from TLC simulation of Session.tla and a seeded generator")
+    found = c.validate("TraceSession", "TraceSession.cfg", path)
+    report_trace_violations(c, found, "TraceSession")
+    c.assumptions += ["handle strings are mapped to small integers by first occurrence (the mapping preserves equality, so uniqueness is decided by TLC)",
+                      "os-backed Server: 'touching a file' is observed as a change of the served tree digest; descriptor leaks via /proc/self/fd entries below the served root"]
+    return c.finish()
